@@ -1,16 +1,20 @@
 (** Entry points used by the correspondence driver: one model, one correspondence
     predicate and one oracle per case family.  Definitions only. *)
-From TD Require Import Base.Prelude Base.Codec Model.Hist Spec.HistSpec Model.IterRun Spec.Ideal.
+From TD Require Import Base.Prelude Base.Codec Model.Hist Spec.HistSpec Model.IterRun Spec.Ideal Model.GeomRun Spec.GeomSpec.
 
 (** case families (which harness runner produced the case) *)
 Definition FAM_HIST : N := 1.
 Definition FAM_ZST : N := 2.
 Definition FAM_ITER : N := 3.
+Definition FAM_VIEW : N := 4.
+Definition FAM_ACCESS : N := 5.
 
 Definition model (fam : N) (inp : list N) : list N :=
   if (fam =? FAM_HIST)%N then hist_model inp
   else if (fam =? FAM_ZST)%N then zst_model inp
   else if (fam =? FAM_ITER)%N then iter_model inp
+  else if (fam =? FAM_VIEW)%N then view_model inp
+  else if (fam =? FAM_ACCESS)%N then access_model inp
   else BAD_CASE.
 
 (** correspondence: the implementation's observation equals the model's prediction *)
@@ -25,4 +29,6 @@ Definition oracle (prop fam : N) (inp obs : list N) : bool :=
     else oracle_hist_spec inp obs
   else if (fam =? FAM_ZST)%N then oracle_zst inp obs
   else if (fam =? FAM_ITER)%N then oracle_iter inp obs
+  else if (fam =? FAM_VIEW)%N then oracle_view inp obs
+  else if (fam =? FAM_ACCESS)%N then oracle_access inp obs
   else false.
